@@ -48,6 +48,9 @@ struct Observer {
     virtual void end_of_step(World&, int /*report_step*/) {}
 };
 
+struct ExtraDef { const char* key; Opm::UnitSystem::measure dim; };
+const std::vector<ExtraDef>& extra_catalogue();
+
 struct RunCfg {
     std::string base = "BASE";
     bool write_double = false;
@@ -58,6 +61,7 @@ struct RunCfg {
     std::vector<std::vector<double>> ministeps;
     std::vector<double> wall_advance;       // seconds of simulated wall clock per ministep, cycled
     bool shut_report_rates = false;         // C09 probe: a well reported SHUT still carries non-zero stub rates (must be ignored)
+    unsigned extra_mask = 1;                // which extra restart arrays the run saves / a restarted run asks for (bit k = extra_catalogue()[k])
     bool add_run = true;                    // the Action::State::add_run a production driver performs
 };
 
